@@ -5,6 +5,9 @@ CONSTANTS
   Dev_h13 = TRUE
   Dev_t127 = TRUE
   Dev_mdict = TRUE
+  Dev_drop = TRUE
+  Dev_cryptv = TRUE
+  Dev_mdstr = TRUE
   Dev_osrep = TRUE
   Dev_dparr = TRUE
   DocIds = {"D1", "D2", "D3", "D4", "D5", "D6"}
